@@ -372,6 +372,28 @@ theorem interp_only_selected_run (s : Setup) (hwf : s.WF) (o : Option (Bool × B
   exact ⟨N, fun f hf => ⟨_, h f hf, specTrace_selected s o user bot⟩⟩
 
 open NemoVerif.RailsInterp in
+/-- **Later calls of a conversation** (the interpreter-level side of `calls_independent`): a call whose history ends in a
+    QUIESCENT interpreter state — no flow state left, any uid counter, any context `σS` that still holds the configuration
+    keys and in which `$skip_output_rails` is falsy — and that records its own options (or no options were ever recorded)
+    executes exactly `specTrace` of ITS options, whatever the earlier calls left in `$allowed`, `$i`, `$user_message`,
+    `$bot_message`, `$relevant_chunks` or in earlier `$generation_options`.  (`interp_turn_runs` is the case `σS` = the
+    configuration, counter 0.)  Not proved: that every turn ENDS quiescent with the flag falsy (it does on every
+    evaluated instance; at the `turn` level this is `skip_flag_reset`). -/
+theorem interp_turn_runs_from (s : Setup) (hwf : s.WF) (o : Option (Bool × Bool × Bool × Bool)) (user : String) (bot : Option String)
+    (hb : BotOK o bot) (σS : V1Interp.Ctx) (cS : Nat) (hcfg : CfgCtx s σS) (hsk : (σS.get "skip_output_rails").truthy = false)
+    (hopt : o = none → NoOpts σS) :
+    ∃ st, V1Interp.replay true (RailsInterp.base ++ s.rails) (initialHistory o user bot)
+        { ctx := σS, flows := [], next := none, upd := [], ctr := cS } = .ok st ∧
+      Runs s (RailsInterp.base ++ s.rails) st (specTrace s o user bot) :=
+  turn_runs_from s hwf o user bot hb σS cS hcfg hsk hopt
+
+open NemoVerif.RailsInterp in
+/-- non-vacuity of `interp_turn_runs_from`: a context left by an earlier call (stale options, stale `$allowed`, flag reset) -/
+example : CfgCtx exSetup (((exSetup.config.set "generation_options.rails.input" (.bool false)).set "allowed" (.bool false)).set "skip_output_rails" (.bool false)) ∧
+    ((((exSetup.config.set "generation_options.rails.input" (.bool false)).set "allowed" (.bool false)).set "skip_output_rails" (.bool false)).get "skip_output_rails").truthy = false := by
+  refine ⟨⟨?_, ?_, ?_⟩, ?_⟩ <;> ctx_norm <;> rfl
+
+open NemoVerif.RailsInterp in
 /-- non-vacuity: the concrete set-up is well-formed (finite facts) -/
 theorem exSetup_wf : exSetup.WF :=
   ⟨by decide, by decide, by decide, by decide⟩
